@@ -30,7 +30,7 @@ CHECKS = {
          "Exploration: an adjacent pair of occurrences of different options (1-token, 2-token, folded forms) is swapped and the outcome must be identical; half pure swaps with identical spellings, half with re-drawn spellings and folding.",
          "Trusted: the reader of DESIGN.md 3.2. Specs with a spec-level -- excluded.", "5/C11"),
  "C12": ("metamorphic runtime monitor: the same real application with and without environment-backed options; targeted families for required and repeated options",
-         "Exploration: accepted without environment => accepted with any subset of options backed by set valid variables, same values for options written on the command line (specs without --); a required option absent from the line is satisfied by its variable (with a negative control); an env-backed option written 1-4 times under [OPTIONS], a folded group, -e..., [-e]... is accepted with all values bound.",
+         "Exploration: accepted without environment => accepted with any subset of options backed by set valid variables, same values for options written on the command line (specs without --); a required option absent from the line is satisfied by its variable (with a negative control); an env-backed option written 1-10 times under [OPTIONS], a folded group, -e..., [-e]... is accepted with all values bound; 66-80 options under [OPTIONS] with environment values on the last ones; environment values with $, %, blanks and dashes.",
          "Trusted: the worker sets/unsets the variables around the declarations, one case at a time.", "5/C12"),
  "C16": ("metamorphic runtime monitor: twin real applications (no spec vs explicit [OPTIONS] ARG...) + usage line read back from the help",
          "Exploration: random declaration sets, twin apps (arguments declared before or after the options, related argument names, env-backed arguments, optional version flag) run on derived and mutated command lines, and a second time on the same objects, must have identical outcomes, the reference verdict for the implicit spec must agree, and both usage lines must read 'Usage: app <spec>'.",
@@ -42,13 +42,13 @@ CHECKS = {
          "Exploration, exhaustive over all combinations of {absent, returns, panics, Exit(n)} for every Before/Action/After (five behaviours incl. Exit(0); panic values of four kinds; all three policies) on chains of depth<=2 (quick) / <=3 (thorough) plus random deeper chains, half of those run twice on one application object: exact event order, Afters of completed levels always run, exit once and last with the most recent status, re-raised panic value pointer-identical. The thorough tier re-runs sampled combinations in child processes without any stub.",
          "Trusted: the flow model of DESIGN.md 3.6; in-process exit stub = record + runtime.Goexit (validated against real processes). Configurations with an absent Action are unclaimed.", "5/C05"),
  "C06": ("runtime monitor reading built-in variables inside the Action, judged by a value model (precedence rules + strconv)",
-         "Exploration: seven types x option/argument x declaration entry point x default x 0-3 environment variables (unset/empty/valid/invalid, lists with blanks) x 0-3 command-line values; the value seen by the Action must be the command-line one(s), else the first valid non-empty variable, else the default. The known finding D5 is matched by a narrow predicate and reported as KNOWN-FINDING; anything else is a violation.",
+         "Exploration: seven types x option/argument x declaration entry point x default x 0-3 environment variables (unset/empty/valid/invalid, lists with blanks) x 0-3 command-line values; the value seen by the Action must be the command-line one(s), else the first valid non-empty variable, else the default - whatever the destination held before a *Ptr declaration, for lists of up to 75 elements, and without writing into the caller's default slice. The known finding D5 is matched by a narrow predicate and reported as KNOWN-FINDING; anything else is a violation.",
          "Trusted: strconv as conversion oracle; KNOWN_FINDINGS.txt predicate for D5.", "5/C06"),
  "C07": ("runtime monitor on random command trees under the three error policies: event log, exit stub, recovered panic, error stream, judged by the routing model; typed trees via a recording twin run",
          "Exploration: every kind of rejection (spec mismatch, unknown word, undeclared/malformed option, non-convertible value) at root, middle and leaf, under ContinueOnError / ExitOnError / PanicOnError (also set per command in its initializer, or assigned to the application after the declarations), including a second rejection by the same application object: no hook or Action event, error text and usage of the rejecting command on the error stream, then exactly the policy's outcome (non-nil error / exit 2 once / panic with an error); accepted controls return nil.",
          "Trusted: routing model; exit stub; error wording taken from the ContinueOnError twin.", "5/C07"),
  "C13": ("differential runtime monitor: built-in typed variables of the real library vs strconv on an edge-case token pool, command-line and environment delivery",
-         "Exploration: ~120 edge-case tokens x seven types x option/argument x delivery; accepted iff strconv accepts, bound value bit-identical to the parse, strings byte for byte, unparsable command-line token => usage error and no Action.",
+         "Exploration: ~140 edge-case tokens x seven types x option/argument x delivery through every spelling (--xx=t, -x=t, -xt, --xx t, -x t, argument after --, environment); accepted iff strconv accepts, bound value bit-identical to the parse, strings byte for byte, unparsable command-line token => usage error and no Action.",
          "Trusted: strconv of the building toolchain.", "5/C13"),
  "C14": ("runtime monitor on random command trees with help/version tokens injected at every position, three policies, judged by the routing/help model",
          "Exploration: -h/--help at random (thorough: every) positions of valid and invalid invocations, with and without a --, version flag first or later: the long help of the command whose own tokens hold the token (usage path + long description), no validation, no event, exit 0 / nil; after a -- in the same command's tokens the token is data; unclaimed ancestor--- case counted only.",
@@ -63,7 +63,7 @@ CHECKS = {
          "Exploration: sequences of 1-6 declarations through all entry points with colliding name lists and valid/invalid argument names, on the root and inside subcommand initializers, going on after recovered panics and after a Run, sometimes sharing destination variables: a call panics iff it conflicts with a name taken by an accepted declaration; for conflict-free sequences every name sets exactly its own variable.",
          "Trusted: model '^[A-Z][A-Z0-9_]*$ minus OPTIONS'; sequences abandoned after the first panic.", "5/C18"),
  "C19": ("runtime monitor: instrumented user value types log every Set/Clear; the call log is checked against the documented protocol",
-         "Exploration: 12 method-set variants as options and argument, env none/valid/invalid, Set failing on a token, all spellings: exact call log at declaration (environment protocol) and at Run (one Clear iff Clear exists and the line bound something, Set with exactly the bound tokens in order, flags get Set(\"true\")), Set error => usage error with prefix-consistent logs.",
+         "Exploration: 13 value types (12 method-set variants plus an unhashable map-typed value) as options and argument, env none/valid/invalid, Set failing on a token, all spellings: exact call log at declaration (environment protocol) and at Run (one Clear iff Clear exists and the line bound something, Set with exactly the bound tokens in order, flags get Set(\"true\")), Set error => usage error with prefix-consistent logs.",
          "Trusted: the command-line reading used to compute the expected tokens (simple spec shapes with a unique derivation).", "5/C19"),
  "C20": ("Go race detector over concurrently built-and-run applications + outcome-equality monitors (concurrent vs solo, permuted sequential order, rebuild)",
          "Exploration of the schedules the runtime produced: 16 goroutines build and run applications from a pool whose solo outcomes were recorded; any race report or any outcome differing from solo is a violation; the same pool in random sequential orders, rebuilt twice, declared interleaved, reused as one object over several lines, nested inside another application's Action and meeting over a channel must also reproduce the solo outcomes, which are themselves compared with the reference verdict. Evidence counts the runs that actually overlapped.",
